@@ -429,14 +429,36 @@ def run_tabs(ctx, shard, tun):
             else:
                 c = Composition()
                 c.set_title("t")
-                for tr in tracks:
-                    tr.set_tuning(t)
+                per_track = [t] * len(tracks)
+                if rng.random() < 0.4:
+                    # a second track with the very same content as the first (separate objects, equal bars) but on another
+                    # tuning that can play it all: each track is drawn on its own strings
+                    cands = [u for u in tun if u is not t and all(playable(opens_of(u), ps) for ps in exps[0])]
+                    if cands:
+                        u = rng.choice(cands)
+                        twin = Track()
+                        for b in tracks[0].bars:
+                            nb_ = Bar("C", meter)
+                            for e_ in b:
+                                nb_.place_notes(None if e_[2] is None else NoteContainer([Note(int(n_)) for n_ in e_[2].notes]), e_[1])
+                            twin.add_bar(nb_)
+                        pos = rng.randrange(len(tracks) + 1)
+                        pos = max(pos, 1) if rng.random() < 0.5 else pos
+                        tracks.insert(pos, twin)
+                        exps.insert(pos, list(exps[0]))
+                        per_track.insert(pos, u)
+                        ntr += 1
+                        w["tracks"] = ntr
+                        w["twin_of_first_track_on"] = [pos, tname(u)]
+                for tr, tu in zip(tracks, per_track):
+                    tr.set_tuning(tu)
                     c.add_track(tr)
                 st, txt = ctx.call(TAB.from_Composition, c, width)
+                opens = [opens_of(tu) for tu in per_track]
             if st == "ok" and isinstance(txt, str):
                 ml = tab.marker_lines(txt)
                 B = tab.beat_width(ml[0]) if ml else None
-                if not in_domain(alllens, B, opens):
+                if not in_domain(alllens, B, opens):         # (the entry lengths are the same for a twin track)
                     skipped += 1
                     ctx.case(("tab-skip", i), nontrivial=False)
                     continue
@@ -455,9 +477,10 @@ def judge_text(ctx, st, txt, exps, opens, w, ntr, what="single"):
     ctx.check("tab: the renderer returns text", True, w)
     sysl = tab.systems(txt)
     got = [[] for _ in range(ntr)]
+    per_track_opens = opens if opens and isinstance(opens[0], list) else [opens] * ntr
     try:
         for i, blk in enumerate(sysl):
-            got[i % ntr] += tab.decode_system(blk, opens)
+            got[i % ntr] += tab.decode_system(blk, per_track_opens[i % ntr])
     except tab.TabError as e:
         ctx.check("tab: equally long lines, one per string", False, w, None, str(e), mechanism="tab-shape:" + what)
         return
